@@ -8,6 +8,15 @@ props = {json.loads(l)['id']: json.loads(l) for l in open('/verif/properties.jso
 tmpl = open('/verif/tools/seed_prompt.tmpl').read()
 os.makedirs('/tmp/wt', exist_ok=True)
 FOCUS = {
+ 5: "For this round produce only ONE change (deliver it as `a`; ignore what is said about `b`), and time-box yourself to about 20 minutes. "
+    "Earlier rounds concentrated on arithmetic slips and on values cached on tokens. This time look elsewhere: (1) a condition that distinguishes two "
+    "statement or operand KINDS and now puts one rare kind on the wrong side (an `isinstance` list, a set of directive names, a mode number, a file-format name, "
+    "a priority or warning class); (2) an ORDER of two steps swapped or merged (check before/after normalisation, emit before/after a report, advance before/after use, "
+    "sort before/after de-duplication) that only matters for a particular shape of input; (3) something that depends on the POSITION of a statement: first or last "
+    "statement of a file, a file without a final newline, an empty file, an empty block, the last of several inputs or outputs, a statement directly after a label on the "
+    "same line; (4) the behaviour with TWO OR MORE of something where one is the common case (two outputs, two includes of the same file, two linked files that both "
+    "export, two errors in one statement, two `-W` options, nested blocks). Avoid everything that every ordinary program would expose at once. "
+    "Note that the source tree has evolved since the earlier rounds (about 60 genuine defects were repaired), so read the current code.\n",
  4: "For this round produce only ONE change (deliver it as `a`; ignore what is said about `b`), and time-box yourself to about 25 minutes. "
     "Look for a change of one of these kinds: (1) two cooperating sites that each look fine alone (a producer and a consumer of a flag, a size hint and the bytes "
     "really emitted, a helper and one of its several callers); (2) a slip that shows only at a boundary of the 16-bit arithmetic (wrap at 0o177777/0o200000, "
